@@ -1,4 +1,5 @@
 import MitumModel.Model.LastPoint
+import MitumModel.Model.LastVoteproofs
 import MitumModel.Gen.C06
 import MitumModel.Pins
 /-!
@@ -145,6 +146,212 @@ theorem revisit_witness : ¬ no_position_twice_full := by
   have := h none [witnessA, witnessB, witnessA] (by intro n hn; simp [witnessA, witnessB] at hn; rcases hn with rfl | rfl | rfl <;> simp)
   revert this
   decide
+
+/-! ### `LastVoteproofsHandler`: the reference is the last accepted voteproof -/
+section handler
+open Mitum.LastVPs
+
+/-- **cap_is_last_accepted.**  When `Set` accepts a voteproof as new and the voteproof does not lie before the
+reference inside its height, the handler's reference (`Cap`) afterwards is that voteproof: the INIT and the ACCEPT
+slot never disagree about which one is the newest. -/
+theorem cap_is_last_accepted (ci ca : Bool) (s : H) (vp : LP) (hw : WF s)
+    (hn : isNew s vp = true) (hd : detour s vp = false) :
+    (setVP ci ca s vp).2 = true ∧ cap (setVP ci ca s vp).1 = some vp := by
+  obtain ⟨hwi, hwa⟩ := hw
+  obtain ⟨⟨ph, pr, pa⟩, pm, ps⟩ := vp
+  simp only [setVP, hn, if_true, true_and]
+  unfold isNew at hn
+  unfold detour at hd
+  cases hi : s.ivp with
+  | none =>
+    cases ha : s.avp with
+    | none => cases pa <;> simp [cap, hi, ha]
+    | some a =>
+      obtain ⟨⟨ah, ar, aa⟩, am, as⟩ := a
+      have haa : aa = true := hwa _ ha
+      subst haa
+      simp only [cap, hi, ha] at hn hd
+      cases pa
+      · -- an INIT voteproof against an ACCEPT reference
+        simp only [cap, hi, ha, Bool.false_eq_true, if_false]
+        simp only [isNewVoteproofByPoint, before, beforeSamePoint, beforeNotSamePoint, ptGt, stageN, backward, pointLt] at *
+        by_cases h1 : ph = ah <;> by_cases h2 : pr = ar <;> (try subst h1) <;> (try subst h2) <;>
+          cases ps <;> cases am <;> cases pm <;> simp_all <;> omega
+      · simp [cap, hi, ha]
+  | some i =>
+    obtain ⟨⟨ih, ir, ia⟩, im, is⟩ := i
+    have hia : ia = false := hwi _ hi
+    subst hia
+    cases ha : s.avp with
+    | none =>
+      simp only [cap, hi, ha] at hn hd
+      cases pa
+      · simp [cap, hi, ha]
+      · simp only [cap, hi, ha, if_true]
+        simp only [isNewVoteproofByPoint, before, beforeSamePoint, beforeNotSamePoint, ptGt, stageN, backward, pointLt] at *
+        by_cases h1 : ph = ih <;> by_cases h2 : pr = ir <;> (try subst h1) <;> (try subst h2) <;>
+          cases ps <;> cases im <;> cases pm <;> simp_all <;> omega
+    | some a =>
+      obtain ⟨⟨ah, ar, aa⟩, am, as⟩ := a
+      have haa : aa = true := hwa _ ha
+      subst haa
+      simp only [cap, hi, ha] at hn hd
+      cases pa
+      · -- INIT voteproof: the ivp slot is replaced
+        simp only [cap, hi, ha, Bool.false_eq_true, if_false]
+        by_cases hlt : pointLt ⟨ah, ar, true⟩ ⟨ih, ir, false⟩ = true
+        · simp only [hlt, if_true] at hn hd
+          simp only [isNewVoteproofByPoint, before, beforeSamePoint, beforeNotSamePoint, ptGt, stageN, backward, pointLt] at *
+          by_cases h1 : ph = ih <;> by_cases h2 : pr = ir <;> (try subst h1) <;> (try subst h2) <;>
+            cases ps <;> cases im <;> cases pm <;> simp_all <;> omega
+        · simp only [hlt, if_false] at hn hd
+          simp only [isNewVoteproofByPoint, before, beforeSamePoint, beforeNotSamePoint, ptGt, stageN, backward, pointLt] at *
+          by_cases h1 : ph = ah <;> by_cases h2 : pr = ar <;> (try subst h1) <;> (try subst h2) <;>
+            cases ps <;> cases am <;> cases pm <;> simp_all <;> omega
+      · -- ACCEPT voteproof: the avp slot is replaced
+        simp only [cap, hi, ha, if_true]
+        by_cases hlt : pointLt ⟨ah, ar, true⟩ ⟨ih, ir, false⟩ = true
+        · simp only [hlt, if_true] at hn hd
+          simp only [isNewVoteproofByPoint, before, beforeSamePoint, beforeNotSamePoint, ptGt, stageN, backward, pointLt] at *
+          by_cases h1 : ph = ih <;> by_cases h2 : pr = ir <;> (try subst h1) <;> (try subst h2) <;>
+            cases ps <;> cases im <;> cases pm <;> simp_all <;> omega
+        · simp only [hlt, if_false] at hn hd
+          simp only [isNewVoteproofByPoint, before, beforeSamePoint, beforeNotSamePoint, ptGt, stageN, backward, pointLt] at *
+          by_cases h1 : ph = ah <;> by_cases h2 : pr = ar <;> (try subst h1) <;> (try subst h2) <;>
+            cases ps <;> cases am <;> cases pm <;> simp_all <;> omega
+
+
+theorem cap_ivp_none (s : H) (h : s.ivp = none) : cap s = s.avp := by
+  unfold cap; rw [h]
+
+theorem cap_avp_none (s : H) (h : s.avp = none) : cap s = s.ivp := by
+  unfold cap; rw [h]; cases s.ivp <;> rfl
+
+/-- a voteproof that is not new never moves the reference: `fillMissing` only fills an empty slot beside it -/
+theorem cap_fill (ci ca : Bool) (s : H) (vp : LP) : cap (fill ci ca s vp) = cap s := by
+  unfold fill
+  cases hc : cap s with
+  | none => simp [hc]
+  | some l =>
+    simp only
+    by_cases c1 : (!ci && l.pt.acc && !vp.pt.acc && decide (l.pt.h = vp.pt.h ∧ l.pt.r = vp.pt.r) && s.ivp.isNone) = true
+    · -- the INIT slot is filled: the reference is the ACCEPT voteproof of the same point
+      simp only [Bool.and_eq_true, Bool.not_eq_true', decide_eq_true_eq, Option.isNone_iff_eq_none] at c1
+      obtain ⟨⟨⟨⟨_, hla⟩, _⟩, hpt⟩, hin⟩ := c1
+      have hav : s.avp = some l := by rw [← cap_ivp_none s hin]; exact hc
+      have c2 : ¬ ((!ca && !l.pt.acc && vp.pt.acc && decide (l.pt.h = vp.pt.h + 1) &&
+          ({ s with ivp := some vp } : H).avp.isNone) = true) := by simp [hla]
+      have c1' : (!ci && l.pt.acc && !vp.pt.acc && decide (l.pt.h = vp.pt.h ∧ l.pt.r = vp.pt.r) && s.ivp.isNone) = true := by
+        simp_all
+      rw [if_pos c1', if_neg c2]
+      simp only [cap, hav]
+      have : pointLt l.pt vp.pt = false := by
+        simp only [pointLt, hpt.1, hpt.2]; simp
+      simp [this]
+    · rw [if_neg c1]
+      by_cases c2 : (!ca && !l.pt.acc && vp.pt.acc && decide (l.pt.h = vp.pt.h + 1) && s.avp.isNone) = true
+      · rw [if_pos c2]
+        simp only [Bool.and_eq_true, Bool.not_eq_true', decide_eq_true_eq, Option.isNone_iff_eq_none] at c2
+        obtain ⟨⟨⟨⟨_, _⟩, _⟩, hh⟩, han⟩ := c2
+        have hiv : s.ivp = some l := by rw [← cap_avp_none s han]; exact hc
+        simp only [cap, hiv]
+        have : pointLt vp.pt l.pt = true := by
+          simp only [pointLt, Bool.or_eq_true, decide_eq_true_eq]; left; omega
+        simp [this]
+      · rw [if_neg c2]; exact hc
+
+theorem wf_fill (ci ca : Bool) (s : H) (vp : LP) (hw : WF s) : WF (fill ci ca s vp) := by
+  obtain ⟨hwi, hwa⟩ := hw
+  unfold fill
+  cases hc : cap s with
+  | none => exact ⟨hwi, hwa⟩
+  | some l =>
+    simp only
+    by_cases c1 : (!ci && l.pt.acc && !vp.pt.acc && decide (l.pt.h = vp.pt.h ∧ l.pt.r = vp.pt.r) && s.ivp.isNone) = true
+    · rw [if_pos c1]
+      have hva : vp.pt.acc = false := by
+        simp only [Bool.and_eq_true, Bool.not_eq_true'] at c1; exact c1.1.1.2
+      have hw1 : WF { s with ivp := some vp } :=
+        ⟨fun i h => by simp at h; subst h; exact hva, hwa⟩
+      by_cases c2 : (!ca && !l.pt.acc && vp.pt.acc && decide (l.pt.h = vp.pt.h + 1) &&
+          ({ s with ivp := some vp } : H).avp.isNone) = true
+      · simp [hva] at c2
+      · rw [if_neg c2]; exact hw1
+    · rw [if_neg c1]
+      by_cases c2 : (!ca && !l.pt.acc && vp.pt.acc && decide (l.pt.h = vp.pt.h + 1) && s.avp.isNone) = true
+      · rw [if_pos c2]
+        have hva : vp.pt.acc = true := by
+          simp only [Bool.and_eq_true, Bool.not_eq_true'] at c2; exact c2.1.1.2
+        exact ⟨hwi, fun a h => by simp at h; subst h; exact hva⟩
+      · rw [if_neg c2]; exact ⟨hwi, hwa⟩
+
+theorem wf_set (ci ca : Bool) (s : H) (vp : LP) (hw : WF s) : WF (setVP ci ca s vp).1 := by
+  unfold setVP
+  by_cases hn : isNew s vp = true
+  · obtain ⟨hwi, hwa⟩ := hw
+    simp only [hn, if_true]
+    cases hpa : vp.pt.acc
+    · simp only [Bool.false_eq_true, if_false]
+      exact ⟨fun i h => by simp at h; subst h; exact hpa, hwa⟩
+    · simp only [if_true]
+      exact ⟨hwi, fun a h => by simp at h; subst h; exact hpa⟩
+  · rw [if_neg hn]
+    exact wf_fill ci ca s vp hw
+
+/-- **handler_tracks_last_accepted.**  Over every sequence of voteproofs handed to `Set` — new ones, old ones,
+ones that fill a slot — without a suffrage-confirm detour, the handler's reference is the last voteproof it accepted
+as new: `IsNew` decides by exactly the position `LastPoint` would hold. -/
+theorem handler_tracks_last_accepted (ci ca : Bool) (vps : List LP) (s : H) (ref : Option LP)
+    (hw : WF s) (hc : cap s = ref) (hnd : noDetour ci ca s vps = true) :
+    cap (track ci ca (s, ref) vps).1 = (track ci ca (s, ref) vps).2 := by
+  induction vps generalizing s ref with
+  | nil => exact hc
+  | cons vp rest ih =>
+    simp only [track]
+    simp only [noDetour, Bool.and_eq_true, Bool.not_eq_true'] at hnd
+    apply ih _ _ (wf_set ci ca s vp hw) _ hnd.2
+    by_cases hn : isNew s vp = true
+    · have hd : detour s vp = false := by
+        cases h : detour s vp with
+        | false => rfl
+        | true => have := hnd.1; simp [hn, h] at this
+      simp only [hn, if_true]
+      exact (cap_is_last_accepted ci ca s vp hw hn hd).2
+    · have hset : (setVP ci ca s vp).1 = fill ci ca s vp := by unfold setVP; rw [if_neg hn]
+      rw [hset, cap_fill, if_neg hn]
+      exact hc
+
+/-- a detour is only ever accepted for a suffrage-confirm result over a reference without a majority -/
+theorem detour_only_sc (s : H) (vp : LP) (hb : before (cap s) vp.pt vp.sc = true) (hd : detour s vp = true) :
+    vp.sc = true ∧ ∃ l, cap s = some l ∧ l.maj = false := by
+  unfold detour at hd
+  cases hc : cap s with
+  | none => simp [hc] at hd
+  | some l =>
+    rw [hc] at hb hd
+    simp only at hd
+    obtain ⟨⟨lh, lr, la⟩, lm, ls⟩ := l
+    obtain ⟨⟨ph, pr, pa⟩, pm, ps⟩ := vp
+    simp only [before, backward, beforeSamePoint, beforeNotSamePoint, ptGt, stageN] at *
+    refine ⟨?_, _, rfl, ?_⟩ <;>
+    (by_cases h1 : pr = lr <;> by_cases h2 : ph = lh <;> (try subst h1) <;> (try subst h2) <;>
+      cases ps <;> cases lm <;> cases pa <;> cases la <;> (try simp_all) <;> (try omega))
+
+/-- ✗ the known finding on the handler: after the detour A=(5,1,ACCEPT,draw) → B=(5,0,INIT,majority,sc) the
+reference is still A although B was accepted last -/
+theorem detour_witness :
+    let a : LP := { pt := ⟨5, 1, true⟩, maj := false, sc := false }
+    let b : LP := { pt := ⟨5, 0, false⟩, maj := true, sc := true }
+    let r := track false false ({ ivp := none, avp := none }, none) [a, b]
+    r.2 = some b ∧ cap r.1 = some a := by decide
+
+example : (track false false ({ ivp := none, avp := none }, none)
+    [{ pt := ⟨5, 0, false⟩, maj := true, sc := false }, { pt := ⟨5, 0, true⟩, maj := false, sc := false },
+     { pt := ⟨5, 1, false⟩, maj := true, sc := false }, { pt := ⟨5, 0, true⟩, maj := true, sc := false }]).2 =
+    some { pt := ⟨5, 1, false⟩, maj := true, sc := false } := by decide
+
+
+end handler
 
 /-- ✦ tie to the source -/
 theorem source_pinned :
